@@ -481,10 +481,10 @@ func (e *Bounds) structural(v ssa.Value, at ssa.Instruction, fr *frame, k Kind) 
 		}
 		return TopAV(k)
 	case *ssa.Call:
-		return e.call(x, 0, false, fr, k)
+		return e.call(x, 0, false, fr, k, at)
 	case *ssa.Extract:
 		if c, ok := x.Tuple.(*ssa.Call); ok {
-			return e.call(c, x.Index, true, fr, k)
+			return e.call(c, x.Index, true, fr, k, at)
 		}
 		return TopAV(k)
 	case *ssa.Field:
@@ -1479,7 +1479,7 @@ func builtinName(c *ssa.Call) string {
 	return ""
 }
 
-func (e *Bounds) call(c *ssa.Call, idx int, tuple bool, fr *frame, k Kind) AV {
+func (e *Bounds) call(c *ssa.Call, idx int, tuple bool, fr *frame, k Kind, use ssa.Instruction) AV {
 	com := c.Common()
 	switch builtinName(c) {
 	case "len":
@@ -1583,6 +1583,11 @@ func (e *Bounds) call(c *ssa.Call, idx int, tuple bool, fr *frame, k Kind) AV {
 			}
 			if ret.Block() == f.Recover && !mayRecover(f) {
 				continue // go/ssa's recover block: reached only if a deferred call recovers
+			}
+			// a return that reports failure (non-nil error / false as last result) does not
+			// contribute where the caller is known to have seen success
+			if tuple && idx != len(ret.Results)-1 && FailureReturn(f, ret) && use != nil && SuccessKnown(c, use) {
+				continue
 			}
 			for _, rv := range ReturnOperand(ret, idx) {
 				if rv == nil {
@@ -2821,4 +2826,135 @@ func (e *Bounds) fieldAt(f *types.Var, base ssa.Value, at ssa.Instruction, fr *f
 		r = r.Join(a)
 	}
 	return r, complete
+}
+
+// ---------------------------------------------------------------------------
+// success / failure of a multi-result call
+
+// FailureReturn: the last result of this return of f is a failure marker — a
+// provably non-nil error or the constant false.
+func FailureReturn(f *ssa.Function, ret *ssa.Return) bool {
+	n := len(ret.Results)
+	if n < 2 {
+		return false
+	}
+	last := f.Signature.Results().At(n - 1).Type()
+	ops := ReturnOperand(ret, n-1)
+	if len(ops) == 0 {
+		return false
+	}
+	for _, v := range ops {
+		if v == nil {
+			return false
+		}
+		if IsErrorType(last) {
+			if ClassifyNil(v, ret) != NonNil {
+				return false
+			}
+			continue
+		}
+		if b, ok := ConstBool(v); !ok || b {
+			return false
+		}
+	}
+	return true
+}
+
+// SuccessKnown: where `at` executes, the call's last result is known to signal
+// success: the error result is nil (tested directly or through the variable it
+// was assigned to), or the bool result is true.
+func SuccessKnown(call *ssa.Call, at ssa.Instruction) bool {
+	tup, ok := call.Type().(*types.Tuple)
+	if !ok || tup.Len() < 2 || call.Referrers() == nil {
+		return false
+	}
+	var last *ssa.Extract
+	for _, r := range *call.Referrers() {
+		if ex, ok := r.(*ssa.Extract); ok && ex.Index == tup.Len()-1 {
+			last = ex
+		}
+	}
+	if last == nil {
+		return false
+	}
+	if IsErrorType(last.Type()) {
+		return ErrKnownNilAt(last, at)
+	}
+	for _, f := range FactsAt(at.Block()) {
+		cond, neg := f.Cond, f.Neg
+		for {
+			u, ok := cond.(*ssa.UnOp)
+			if !ok || u.Op != token.NOT {
+				break
+			}
+			cond, neg = u.X, !neg
+		}
+		if cond == last && !neg {
+			return true
+		}
+		// ok stored in a variable: a load of that cell
+		if ld, ok := cond.(*ssa.UnOp); ok && ld.Op == token.MUL && !neg {
+			for _, st := range cellStoresOf(last) {
+				if ld.X == st.Addr && Dominates(st, ld) && !otherStoreBetween(st, ld) {
+					return true
+				}
+			}
+		}
+	}
+	return false
+}
+
+func cellStoresOf(v ssa.Value) []*ssa.Store {
+	var out []*ssa.Store
+	if v.Referrers() == nil {
+		return nil
+	}
+	for _, r := range *v.Referrers() {
+		if st, ok := r.(*ssa.Store); ok && st.Val == v {
+			switch st.Addr.(type) {
+			case *ssa.Alloc, *ssa.FreeVar:
+				out = append(out, st)
+			}
+		}
+	}
+	return out
+}
+
+func otherStoreBetween(st *ssa.Store, ld ssa.Instruction) bool {
+	for _, b := range st.Parent().Blocks {
+		for _, in := range b.Instrs {
+			s2, ok := in.(*ssa.Store)
+			if !ok || s2 == st || s2.Addr != st.Addr {
+				continue
+			}
+			if Reachable(st, s2, func(i ssa.Instruction) bool { return i == ld }) && Reachable(s2, ld, nil) {
+				return true
+			}
+		}
+	}
+	return false
+}
+
+// ErrKnownNilAt: the error value is known nil at `at` — by a dominating test of
+// the value itself or of the local variable it was assigned to.
+func ErrKnownNilAt(errV ssa.Value, at ssa.Instruction) bool {
+	if NilAt(errV, at) {
+		return true
+	}
+	for _, f := range FactsAt(at.Block()) {
+		x, neq, ok := NilCmp(f.Cond)
+		if !ok || neq != f.Neg {
+			continue
+		}
+		ld, isLd := x.(*ssa.UnOp)
+		if !isLd {
+			continue
+		}
+		for _, st := range cellStoresOf(errV) {
+			if ld.X == st.Addr && Dominates(st, ld) && !otherStoreBetween(st, ld) {
+				return true
+			}
+		}
+	}
+	return false
 }
